@@ -528,7 +528,7 @@ func init() {
 		ID:  "C16",
 		Run: runC16,
 		Rule: "case = a batch task with one of 7 WHERE shapes (none, AND/OR nests with and without parentheses, regex, an existing time predicate) x period 1s-1m x every 1-10s (aligned or not) or cron (also on a server whose local zone is 5h30 ahead of UTC, with a schedule that names the minute) x offset 0/1s/30s x groupBy none/time/tag/*/time+tag x fill x a seeded start phase (0-10s) x 8-45s of virtual run time, against a fake InfluxDB with seeded latency (for every query or only for the first 1-3), errors, a forward clock jump, late timers, an optionally failing downstream node, and an optionally undeclared database (named directly or inside a subquery); " +
-			"(round 3) every also 7s and 11s (which do not divide the distance between year 1 and 1970, so that 'aligned' depends on the origin), and an undeclared retention policy of a declared database as the second source of the query; " +
+			"the historical list of the whole span must equal the lists of its two halves when it is cut at one of its own ticks; (round 3) every also 7s and 11s (which do not divide the distance between year 1 and 1970, so that 'aligned' depends on the origin), and an undeclared retention policy of a declared database as the second source of the query; " +
 			"non-trivial = at least one query was issued; distinct = distinct (scenario, interleaving signature) pairs",
 		Real:        []string{"BatchNode, QueryNode (doQuery, Queries, runBatch, stopBatch), timeTicker, cronTicker", "Query (NewQuery, Clone, Dimensions, Fill, SetStartTime/SetStopTime)", "ExecutingTask.StartBatching/BatchQueries/checkDBRPs", "TaskMaster StartTask/StopTask, edges, LogNode, AlertNode (failing node variant)", "influxql (uninstrumented) to re-parse every query the way InfluxDB would"},
 		Stub:        []string{"InfluxDB client on the existing seam: records queries with the virtual time of issue; seeded latency and errors", "libflux C stub (never called)"},
